@@ -162,7 +162,8 @@ impl DmlExecutor {
             .catalog()
             .get_relation(table_id, &tree_builder, &snapshot)?;
 
-        let row_id = relation.next_row_id();
+        let row_id_lease = self.ctx.catalog().lease_row_id(&relation);
+        let row_id = UInt64::from(row_id_lease.id());
         relation.increment_row_id();
 
         let schema = relation.schema().clone();
@@ -221,6 +222,7 @@ impl DmlExecutor {
             &tree_builder,
             &snapshot,
         )?;
+        row_id_lease.keep();
 
         Ok(InsertResult {
             row_id: row_id.value(),
